@@ -407,22 +407,31 @@ func ClearRulesOfResource(res string) error {
 // BuildResourceCircuitBreaker builds CircuitBreaker slice from rules. the resource of rules must be equals to res
 func BuildResourceCircuitBreaker(res string, rulesOfRes []*Rule, oldResCbs []CircuitBreaker) []CircuitBreaker {
 	newCbsOfRes := make([]CircuitBreaker, 0, len(rulesOfRes))
-	for _, r := range rulesOfRes {
+	// First match every rule with an equivalent old cb, so that an unchanged rule keeps its cb
+	// (and its state) even if another rule of the same load could reuse that cb's statistic.
+	equalOldCbs := make([]CircuitBreaker, len(rulesOfRes))
+	for i, r := range rulesOfRes {
+		if res != r.Resource {
+			continue
+		}
+		if equalIdx, _ := calculateReuseIndexFor(r, oldResCbs); equalIdx >= 0 {
+			equalOldCbs[i] = oldResCbs[equalIdx]
+			// remove old cb from oldResCbs
+			oldResCbs = append(oldResCbs[:equalIdx], oldResCbs[equalIdx+1:]...)
+		}
+	}
+	for i, r := range rulesOfRes {
 		if res != r.Resource {
 			logging.Error(errors.Errorf("unmatched resource name expect: %s, actual: %s", res, r.Resource), "Unmatched resource name in circuitBreaker.BuildResourceCircuitBreaker()", "rule", r)
 			continue
 		}
-		equalIdx, reuseStatIdx := calculateReuseIndexFor(r, oldResCbs)
-
 		// First check equals scenario
-		if equalIdx >= 0 {
+		if equalOldCbs[i] != nil {
 			// reuse the old cb
-			equalOldCb := oldResCbs[equalIdx]
-			newCbsOfRes = append(newCbsOfRes, equalOldCb)
-			// remove old cb from oldResCbs
-			oldResCbs = append(oldResCbs[:equalIdx], oldResCbs[equalIdx+1:]...)
+			newCbsOfRes = append(newCbsOfRes, equalOldCbs[i])
 			continue
 		}
+		_, reuseStatIdx := calculateReuseIndexFor(r, oldResCbs)
 
 		generator := cbGenFuncMap[r.Strategy]
 		if generator == nil {
